@@ -75,7 +75,8 @@ _ALL["C13"] = {
     "design_ref": "DESIGN.md §5 C13",
     "technique": _TECH + "every nondeterminism source behind a seam (entropy, random, hash-set order, clock, pid, buffer sizes, "
                          "earlier activity in the same process) and varied between two executions of one scenario, with "
-                         "single-dimension attribution; real child interpreters with other PYTHONHASHSEEDs",
+                         "single-dimension attribution; real child interpreters with other PYTHONHASHSEEDs and PYTHONOPTIMIZE levels; "
+                         "caller threads of a threaded host interleaved by a seeded baton scheduler at line events",
     "level_text": "Seeded search over (scenario, varied dimensions, pre-history); byte-identical output tree and dump demanded; "
                   "the no-salt scenario re-runs with the reported salt.",
     "level_note": "Trusted: the seams cover the sources netconan uses today plus clock/pid/urandom as negative controls; a source "
@@ -124,7 +125,7 @@ NOTES = ("All claimed checks are exploration-level deterministic simulations (se
          "repaired in /repo (fix: commits 40a7ea6, 5bbf938, ab3e6dd, f3aaac2, 08553b7, 6cea28f; recorded as `fixed` in "
          "known_findings.json, witnesses pinned under corpus/); one is recorded as a finding (D6, property C07: the check prints "
          "KNOWN-FINDING for its pinned witness and exits 0). Self-tests: check selftest-determinism | selftest-simfs | "
-         "selftest-grammar | selftest-sensitivity (mutants/catalogue.json) | selftest-seeded (147 independent seeded changes "
+         "selftest-grammar | selftest-sensitivity (mutants/catalogue.json) | selftest-seeded (156 independent seeded changes "
          "under seeded/).")
 
 
